@@ -223,7 +223,7 @@ CircuitSchedule(db) ==
 Chk(id, reads, reads1, chals) == [id |-> id, reads |-> reads, reads1 |-> reads1, chals |-> chals]
 \* a wire / constant / trace column that no constraint mentions does not enter the identity: one changed element of
 \* these opening vectors MAY go unnoticed by the vanishing check (the transcript still notices it)
-VanishingPartial == IF IsPlonk THEN {S("op_wires"), S("op_constants")} ELSE {S("op_local"), S("op_next")}
+VanishingPartial == IF IsPlonk THEN {S("op_wires"), S("op_constants"), S("op_lzs"), S("op_lzs_next")} ELSE {S("op_local"), S("op_next")}
 VanishingReads == (Openings \ VanishingPartial) \cup {S("pis")} \cup (IF IsPlonk THEN {} ELSE {S("degree_bits")})
 Vanishing(i) == Chk("Vanishing" \o Digit(i), VanishingReads, VanishingPartial, (IF IsPlonk THEN {"betas"} ELSE {}) \cup {"alphas", "zeta"})
 PowChk == Chk("Pow", {}, {}, {"pow_response"})
